@@ -56,7 +56,7 @@ def _tls_domain_validated(facts, s):
     # ServerName::try_from(host) succeeded, and for exactly that host
     import c12
     call, tab = c12.tls_host_table(facts)
-    for scen in ("no-host", "invalid-host", "valid-host"):
+    for scen in ("no-host", "invalid-host", "valid-host", "bracketed-host"):
         got = tab[scen]
         if isinstance(got, Exception):
             return False, "the host table of TlsTransportWrapper::call is undecided (%s)" % got
@@ -64,9 +64,9 @@ def _tls_domain_validated(facts, s):
             if log is None:
                 return False, "the host table of TlsTransportWrapper::call is undecided"
             built = [e for e in log if e.startswith("new:")]
-            if built and scen != "valid-host":
+            if built and scen not in ("valid-host", "bracketed-host"):
                 return False, "TlsConnectionFuture::new is reachable without ServerName::try_from(host) having succeeded"
-            if any(e != "new:HOST_valid" for e in built):
+            if any(e not in ("new:HOST_valid", "new:HOST_inner_valid") for e in built):
                 return False, "the domain given to the TLS future is not the value that was validated with ServerName::try_from"
     callers = {x.fn.nkey for x in facts.call_sites_of("client::conn::transport::tls::future::TlsConnectionFuture::new")}
     if not callers <= ({call.nkey} | {norm(k) for k in call.inlined}):
